@@ -562,3 +562,181 @@ Proof.
   cbn [app] in Iq. pose proof (incp_tail_conts _ _ Iq) as T.
   apply Forall_app in T. destruct T as [_ T]. inversion T; subst. congruence.
 Qed.
+
+(* ------------------------------------------------------------------------ *)
+(* the other public streaming API: Tendril::decode_utf8_lossy +
+   IncompleteUtf8::try_complete (no error() calls)                            *)
+
+Lemma api_step_spec st c : inv st ->
+  exists st' evs is,
+    match st with
+    | None => decode_utf8_lossy c
+    | Some inc =>
+      match try_complete inc c with
+      | Panic => Panic
+      | Done (inc', None) => Done (Some inc', [])
+      | Done (_, Some (evs, rest)) =>
+        match decode_utf8_lossy rest with
+        | Done (i, evs') => Done (i, evs ++ evs')
+        | Panic => Panic
+        end
+      end
+    end = Done (st', evs) /\ inv st' /\ denotes false evs is /\
+    forall z, lossy_items (pend st ++ c ++ z) = is ++ lossy_items (pend st' ++ z).
+Proof.
+  intros I. destruct st as [p|]; cbn [inv pend] in *.
+  - unfold try_complete.
+    destruct (try_to_complete_spec p c I) as [[R Ip]|[r [rest [u [R [Ec Hr]]]]]]; rewrite R.
+    + exists (Some (p ++ c)), [], []. repeat split; auto; try apply Ip.
+      * constructor.
+      * intros z. cbn [pend app]. rewrite app_assoc. reflexivity.
+    + assert (Eres : skipn (length c - length rest) c = rest).
+      { rewrite Ec at 2. rewrite Ec at 1. rewrite app_length.
+        replace (length u + length rest - length rest)%nat with (length u) by lia.
+        apply skipn_app_exact. }
+      rewrite Eres. unfold decode_utf8_lossy.
+      destruct (decode_loop_spec false (S (length rest)) rest ltac:(lia))
+        as [st' [evs [is [y [RL [I' [Dn [Ey Hz]]]]]]]].
+      rewrite RL.
+      destruct r as [s|s].
+      * destruct Hr as [Es [cs [Hs [Hcs Ecs]]]].
+        exists st', ([Str s] ++ evs), (map Ch cs ++ is). repeat split; auto.
+        -- cbn [app]. rewrite Ecs. apply den_str; auto.
+        -- intros z. rewrite Ec. rewrite <- app_assoc, app_assoc, <- Es, Ecs.
+           rewrite lossy_items_valid by assumption. rewrite <- app_assoc. f_equal. apply Hz.
+      * destruct Hr as [Es Hl].
+        exists st', ([Replacement] ++ evs), (Repl :: is). repeat split; auto.
+        -- cbn [app]. apply den_bad_n; auto.
+        -- intros z. rewrite Hl. cbn [app]. f_equal. apply Hz.
+  - cbn [app]. unfold decode_utf8_lossy.
+    destruct (decode_loop_spec false (S (length c)) c ltac:(lia))
+      as [st' [evs [is [y [RL [I' [Dn [Ey Hz]]]]]]]].
+    exists st', evs, is. repeat split; auto.
+Qed.
+
+Lemma api_run_from_spec chunks : forall st, inv st ->
+  exists evs, api_run_from st chunks = Done evs /\
+              denotes false evs (lossy_items (pend st ++ concat chunks)).
+Proof.
+  induction chunks as [|c cs IH]; intros st I.
+  - cbn [api_run_from concat]. rewrite app_nil_r.
+    destruct st as [p|]; cbn [pend].
+    + exists [Replacement]. split; [reflexivity|].
+      destruct I as [Hne S]. rewrite (lossy_items_inc p Hne S).
+      apply den_bad_n; [reflexivity|constructor].
+    + exists []. split; [reflexivity|constructor].
+  - cbn [api_run_from concat]. cbv zeta.
+    destruct (api_step_spec st c I) as [st' [evs [is [R [I' [Dn Hz]]]]]].
+    rewrite R. destruct (IH st' I') as [evs' [R' Dn']]. rewrite R'.
+    exists (evs ++ evs'). split; [reflexivity|].
+    rewrite Hz. apply denotes_app; assumption.
+Qed.
+
+Theorem utf8_api_stream chunks :
+  exists evs, api_run chunks = Done evs /\
+    text evs = lossy (concat chunks) /\
+    n_repl evs = lossy_replacements (concat chunks) /\
+    n_err evs = 0%nat.
+Proof.
+  destruct (api_run_from_spec chunks None I) as [evs [R D]]. exists evs.
+  split; [exact R|]. split; [|split].
+  - apply (denotes_text _ _ _ D).
+  - apply (denotes_repl _ _ _ D).
+  - apply (denotes_noerr _ _ D).
+Qed.
+
+(* ------------------------------------------------------------------------ *)
+(* sanity of the specification itself                                         *)
+
+(* lossy decoding is the identity on valid UTF-8 and inserts nothing *)
+Theorem lossy_valid_id cs : scalars cs ->
+  lossy (encs cs) = encs cs /\ lossy_replacements (encs cs) = 0%nat.
+Proof.
+  intros Hs.
+  assert (E : lossy_items (encs cs) = map Ch cs).
+  { pose proof (lossy_items_valid cs [] Hs) as H. rewrite !app_nil_r in H. exact H. }
+  unfold lossy, lossy_chars, lossy_replacements. rewrite E, map_map. cbn [item_char].
+  rewrite map_id. split; [reflexivity|].
+  rewrite <- (app_nil_r (map Ch cs)). apply n_bad_chars.
+Qed.
+
+(* the result is always a sequence of scalar values, i.e. lossy bs is valid UTF-8 *)
+Lemma lossy_fuel_scalars f : forall bs, scalars (map item_char (lossy_fuel f bs)).
+Proof.
+  induction f as [|f IH]; intros bs; destruct bs as [|b t]; try constructor.
+  cbn [lossy_fuel]. unfold lossy_step. destruct (dec1 (b :: t)) as [[c r]|] eqn:D.
+  - cbn [map item_char]. constructor; [|apply IH].
+    destruct (dec1_inv _ _ _ D) as [Hc _]. exact Hc.
+  - cbn [map item_char]. constructor; [reflexivity|apply IH].
+Qed.
+
+Theorem lossy_is_valid bs : valid_utf8 (lossy bs).
+Proof. exists (lossy_chars bs). split; [apply lossy_fuel_scalars|reflexivity]. Qed.
+
+(* the model of from_utf8 accepts exactly the encodings of scalar sequences *)
+Lemma check_fuel_valid cs : scalars cs -> forall fuel pos, (length (encs cs) <= fuel)%nat ->
+  check_fuel fuel pos (encs cs) = COk.
+Proof.
+  induction 1 as [|c cs Hc Hs IH]; intros fuel pos L.
+  - destruct fuel; reflexivity.
+  - rewrite encs_cons in *. destruct fuel as [|f].
+    { rewrite app_length in L. pose proof (enc_length_pos c). lia. }
+    destruct (enc c ++ encs cs) as [|b0 t] eqn:E.
+    { apply app_eq_nil in E. destruct E as [E _]. now apply enc_nonempty in E. }
+    cbn [check_fuel]. rewrite <- E. rewrite (step1_enc c (encs cs) Hc).
+    rewrite skipn_app_exact. apply IH.
+    rewrite <- E, app_length in L. pose proof (enc_length_pos c). lia.
+Qed.
+
+Theorem check_ok_iff_valid bs : check bs = COk <-> valid_utf8 bs.
+Proof.
+  split.
+  - intros H. pose proof (check_spec bs) as C. rewrite H in C. exact C.
+  - intros [cs [Hs ->]]. apply check_fuel_valid; [assumption|lia].
+Qed.
+
+(* ------------------------------------------------------------------------ *)
+(* Parser::from_utf8() = Utf8LossyDecoder::new(parser): the inner sink is the
+   parser.  IF feeding the parser text in pieces is the same as feeding it the
+   concatenation (that is property C03, a Section hypothesis here, not proved
+   here), the parser ends in the state it reaches on the lossy string.        *)
+Section FromUtf8.
+  Variable pstate : Type.
+  Variable feed : pstate -> list N -> pstate.        (* TendrilSink::process(StrTendril) *)
+  Variable report : pstate -> bool -> pstate.        (* TendrilSink::error *)
+  Hypothesis feed_nil : forall s, feed s [] = s.
+  Hypothesis feed_app : forall s a b, feed (feed s a) b = feed s (a ++ b).
+  (* errors are recorded on the side *)
+  Variable observe : pstate -> list N.               (* e.g. the serialized tree *)
+  Hypothesis report_obs : forall s e, observe (report s e) = observe s.
+  Hypothesis feed_obs : forall s s' a, observe s = observe s' ->
+                                       observe (feed s a) = observe (feed s' a).
+
+  Definition deliver1 (s : pstate) (e : event) : pstate :=
+    match e with
+    | Str bs => feed s bs
+    | Replacement => feed s repl_bytes
+    | Error eof => report s eof
+    end.
+
+  Lemma deliver_text : forall evs s s', observe s = observe s' ->
+    observe (fold_left deliver1 evs s) = observe (feed s' (text evs)).
+  Proof.
+    induction evs as [|e evs IH]; intros s s' H.
+    - cbn. rewrite feed_nil. exact H.
+    - cbn [fold_left]. unfold text. cbn [flat_map]. fold (text evs).
+      rewrite <- feed_app. apply IH.
+      destruct e; cbn [deliver1 ev_text].
+      + apply feed_obs; exact H.
+      + apply feed_obs; exact H.
+      + rewrite feed_nil, report_obs. exact H.
+  Qed.
+
+  Theorem from_utf8_modulo_chunking chunks s0 :
+    exists evs, run chunks = Done evs /\
+      observe (fold_left deliver1 evs s0) = observe (feed s0 (lossy (concat chunks))).
+  Proof.
+    destruct (utf8_stream chunks) as [evs [R [T _]]]. exists evs. split; [exact R|].
+    rewrite <- T. apply deliver_text. reflexivity.
+  Qed.
+End FromUtf8.
